@@ -7,6 +7,7 @@ import (
 	"errors"
 	"log/slog"
 	"net"
+	"time"
 
 	"github.com/scionproto/scion/pkg/daemon"
 	"github.com/scionproto/scion/pkg/snet"
@@ -95,6 +96,15 @@ func exchangeDataQUIC(ctx context.Context, log *slog.Logger, conn *scion.QUICCon
 	msg.AddRecord(end)
 
 	buf, err := msg.Pack()
+	if err != nil {
+		return err
+	}
+
+	deadline := time.Now().Add(exchangeTimeout)
+	if d, ok := ctx.Deadline(); ok && d.Before(deadline) {
+		deadline = d
+	}
+	err = stream.SetDeadline(deadline)
 	if err != nil {
 		return err
 	}
